@@ -33,7 +33,7 @@ ASSUMPTIONS = [
     "failures of begin_read/begin_write (file deleted under the handle) are not among the listed failure sources",
 ]
 REQUIRED = {"mp.sessions": 200, "mp.writer-sessions": 100, "mp.reader-between-writers": 5, "mp.cross-process-adjacent": 50,
-            "seq.sequences": 1000, "mp.schedules-with-racing-creation": 2, "lateopen.schedules": 4, "locktimeout.schedules": 2, "fail.cases": 30, "fail.fresh-process-acquired": 30}
+            "seq.sequences": 1000, "mp.schedules-with-racing-creation": 2, "lateopen.schedules": 4, "locktimeout.schedules": 2, "longlived.histories": 15, "longlived.other-process-sessions": 20, "longlived.own-sessions-ended-by-rejected-record": 3, "longlived.library-recreated-under-live-handles": 2, "fail.cases": 30, "fail.fresh-process-acquired": 30}
 CHUNK_TIMEOUT = 600
 TECHNIQUE = ("runtime monitoring: recorded session-interval histories from real processes + offline checker (mutual exclusion, "
              "conservation, visibility); fault injection at each session step with a fresh-process lock probe")
@@ -63,12 +63,14 @@ def plan(tier, seed):
         specs.append({"kind": "lateopen", "chunk": i, "timeout": 240})
     for i in range(2 if tier == "quick" else 8):
         specs.append({"kind": "locktimeout", "chunk": i, "timeout": 240})
+    for i in range(4 if tier == "quick" else 16):
+        specs.append({"kind": "longlived", "chunk": i, "n": 6 if tier == "quick" else 25})
     return specs
 
 
 def run_chunk(spec, ctx):
     {"mp": run_mp, "seq": run_seq, "fail": run_fail, "lateopen": run_lateopen,
-     "locktimeout": run_locktimeout}[spec["kind"]](spec, ctx)
+     "locktimeout": run_locktimeout, "longlived": run_longlived}[spec["kind"]](spec, ctx)
 
 
 # ------------------------------------------------------------------------------------------------
@@ -292,6 +294,247 @@ def run_lateopen(spec, ctx):
             ctx.violation("lateopen:final-file-differs", case=case, missing=sorted(set(want) - set(got)))
     except ScanError as e:
         ctx.violation("lateopen:final-file-not-a-clean-record-sequence", case=case, err=str(e))
+
+
+# ------------------------------------------------------------------------------------------------
+# longlived: handles that live across other processes' sessions (also failed own sessions and a re-created library)
+
+OTHER_PROCESS = r"""
+import sys, json
+sys.path[:0] = %(syspath)r
+from molli.storage import Collection, UkvCollectionBackend
+for line in sys.stdin:
+    cmd = json.loads(line)
+    out = {}
+    try:
+        if cmd["op"] == "recreate":
+            lib = Collection(cmd["path"], UkvCollectionBackend, readonly=False, overwrite=True, comment=cmd["comment"])
+        else:
+            lib = Collection(cmd["path"], UkvCollectionBackend, readonly=cmd["op"] == "read", bufsize=cmd.get("bufsize", 0))
+        if cmd["op"] == "read":
+            with lib.reading(timeout=30):
+                out["seen"] = {k: lib[k].hex() for k in lib.keys()}
+        else:
+            with lib.writing(timeout=30):
+                out["listed_at_begin"] = sorted(lib.keys())
+                for k, v in cmd["records"]:
+                    lib[k] = bytes.fromhex(v)
+    except Exception as e:
+        out["error"] = type(e).__name__ + ": " + str(e)[:200]
+    print(json.dumps(out), flush=True)
+"""
+
+
+def run_longlived(spec, ctx):
+    """Sessions never overlap here; what is exercised is the state a long-lived handle carries from one session to the
+    next while OTHER processes complete sessions in between.  Rule: a record written in a session that completed (own or
+    foreign) is listed and readable, with its value, in every later session of every handle; records accepted in an own
+    session that ended with an exception are in limbo until that handle completes a writing session, then they are
+    stored as well; nothing else ever appears."""
+    from molli.storage import Collection, UkvCollectionBackend
+    from vmon.models.kvmap import scan, ScanError
+
+    other = subprocess.Popen([sys.executable, "-c", OTHER_PROCESS % {"syspath": [p for p in sys.path if p]}],
+                             stdin=subprocess.PIPE, stdout=subprocess.PIPE, text=True)
+
+    def ask(cmd):
+        other.stdin.write(json.dumps(cmd) + "\n")
+        other.stdin.flush()
+        line = other.stdout.readline()
+        if not line:
+            raise RuntimeError("the other process died")
+        return json.loads(line)
+
+    try:
+        for j in range(spec["n"]):
+            case = ("longlived", spec["chunk"], j)
+            if not ctx.want(case):
+                continue
+            rng = ctx.rng(*case)
+            path = ctx.tmp / f"ll{j}.ukv"
+            Collection(path, UkvCollectionBackend, readonly=False, overwrite=True, comment="c" * rng.choice([0, 3, 40]))
+            nh = rng.choice([1, 1, 2])
+            bufs = [rng.choice([0, 4096, 10**6, 10**6]) for _ in range(nh)]
+            hs = [Collection(path, UkvCollectionBackend, readonly=False, bufsize=b) for b in bufs]
+            hard: dict[str, bytes] = {}               # certainly stored
+            limbo = [dict() for _ in hs]              # accepted in a session of that handle that ended with an exception
+            maybe: dict[str, bytes] = {}              # limbo records at the time the library was created anew: they may have
+            #                                           been stored before (and are gone with the old file) or are still queued
+            hist = [("handles", bufs)]
+            counter = [0]
+            ok = [True]
+            flags = set()
+
+            def fresh(who):
+                counter[0] += 1
+                return f"{who}{counter[0]}", rng.randbytes(rng.choice([0, 3, 20, 200]))
+
+            def v(key, **detail):
+                ok[0] = False
+                ctx.violation("longlived:" + key, case=case, history=hist[-12:], **detail)
+
+            def look(h, col, where):
+                """inside a session of handle h"""
+                ks = set(col.keys())
+                missing = sorted(k for k in hard if k not in ks)
+                if missing:
+                    return v(f"{where}:record-of-a-completed-session-not-listed", missing=missing[:4], listed=len(ks))
+                extra = sorted(k for k in ks if k not in hard and k not in maybe and not any(k in lb for lb in limbo))
+                if extra:
+                    return v(f"{where}:listed-key-that-nobody-stored", extra=extra[:4])
+                for k in rng.sample(sorted(hard), min(len(hard), 5)):
+                    try:
+                        got = col[k]
+                    except Exception as e:  # noqa
+                        return v(f"{where}:record-of-a-completed-session-unreadable:{type(e).__name__}", key=k)
+                    if got != hard[k]:
+                        return v(f"{where}:record-of-a-completed-session-altered", key=k)
+                ctx.count("longlived.in-session-views-checked")
+
+            nsteps = rng.randrange(5, 12)
+            just_failed = None
+            for step in range(nsteps):
+                if not ok[0]:
+                    break
+                r = rng.random()
+                if r < 0.30:
+                    # another process completes a writing session
+                    n = rng.randrange(1, 4)
+                    if just_failed is not None and limbo[just_failed] and rng.random() < 0.5:
+                        n = min(len(limbo[just_failed]), 3)
+                    recs = [fresh("o") for _ in range(n)]
+                    hist.append(("other-process-writes", n))
+                    out = ask({"op": "write", "path": str(path), "records": [(k, val.hex()) for k, val in recs],
+                               "bufsize": rng.choice([0, 4096])})
+                    if "error" in out:
+                        v("other-process-session-fails", err=out["error"])
+                        break
+                    lost = sorted(k for k in hard if k not in out["listed_at_begin"])
+                    if lost:
+                        v("other-process:record-of-a-completed-session-not-listed", missing=lost[:4])
+                        break
+                    hard.update(recs)
+                    flags.add("other")
+                    ctx.count("longlived.other-process-sessions")
+                elif r < 0.36:
+                    # another process creates the library anew (overwrite=True) and completes a session
+                    recs = [fresh("n") for _ in range(rng.randrange(1, 3))]
+                    comment = "r" * rng.choice([0, 1, 7, 64, 300])
+                    hist.append(("other-process-recreates", len(comment), len(recs)))
+                    out = ask({"op": "recreate", "path": str(path), "comment": comment,
+                               "records": [(k, val.hex()) for k, val in recs]})
+                    if "error" in out:
+                        v("other-process-recreate-fails", err=out["error"])
+                        break
+                    hard = dict(recs)
+                    for lb in limbo:
+                        maybe.update(lb)
+                        lb.clear()
+                    flags.add("recreated")
+                    ctx.count("longlived.library-recreated-under-live-handles")
+                else:
+                    h = rng.randrange(nh)
+                    col = hs[h]
+                    writing = r < 0.80
+                    with_dup = writing and hard and rng.random() < 0.3
+                    absent_style = writing and not with_dup and rng.random() < 0.3
+                    hist.append(("own", h, "w" if writing else "r", "dup" if with_dup else "absent" if absent_style else ""))
+                    accepted, raised_at_put, session_error = [], [], None
+                    try:
+                        with (col.writing(timeout=30) if writing else col.reading(timeout=30)):
+                            look(h, col, "own-session-begin")
+                            if not ok[0]:
+                                break
+                            if writing:
+                                plan = [fresh(f"h{h}_") for _ in range(rng.randrange(0, 4))]
+                                if with_dup:
+                                    plan.insert(rng.randrange(len(plan) + 1), (rng.choice(sorted(hard)), b"DUPLICATE"))
+                                if absent_style:
+                                    # "store unless it is there already"
+                                    plan += [(k, b"ABSENT?") for k in rng.sample(sorted(hard), min(len(hard), 2))]
+                                for k, val in plan:
+                                    if absent_style and val == b"ABSENT?":
+                                        if k in col.keys():
+                                            continue
+                                        v("own-session:stored-record-reported-absent", key=k)
+                                        break
+                                    try:
+                                        col[k] = val
+                                        if val != b"DUPLICATE":
+                                            accepted.append((k, val))
+                                    except Exception as e:  # noqa  (the user catches it and carries on)
+                                        raised_at_put.append((k, type(e).__name__))
+                                        if val != b"DUPLICATE":
+                                            v(f"own-session:valid-put-raises:{type(e).__name__}", key=k)
+                                            break
+                                look_keys = set(col.keys())
+                                for k, val in accepted:
+                                    if k not in look_keys:
+                                        v("own-session:own-accepted-record-not-listed", key=k)
+                                        break
+                    except Exception as e:  # noqa
+                        session_error = e
+                    if not ok[0]:
+                        break
+                    ctx.count("longlived.own-sessions")
+                    if session_error is not None:
+                        if not with_dup or raised_at_put:
+                            v(f"own-session-raises:{type(session_error).__name__}", err=repr(session_error)[:200],
+                              writing=writing)
+                            break
+                        # the duplicate was still queued at exit: what was accepted is in limbo
+                        limbo[h].update(accepted)
+                        just_failed = h
+                        flags.add("failed-session")
+                        ctx.count("longlived.own-sessions-ended-by-rejected-record")
+                    else:
+                        if with_dup and not raised_at_put:
+                            v("own-session:duplicate-accepted-silently")
+                            break
+                        if writing:
+                            hard.update(limbo[h])
+                            limbo[h].clear()
+                            hard.update(accepted)
+                            if just_failed == h:
+                                just_failed = None
+            if not ok[0]:
+                ctx.case(case, dkey=repr(hist), nontrivial=True)
+                continue
+            # drain: every handle completes one more (empty) writing session, then a fresh process reads the file
+            for h, col in enumerate(hs):
+                try:
+                    with col.writing(timeout=30):
+                        pass
+                    hard.update(limbo[h])
+                    limbo[h].clear()
+                except Exception as e:  # noqa
+                    v(f"drain-session-raises:{type(e).__name__}", handle=h, err=repr(e)[:200])
+            ctx.case(case, dkey=repr(hist), nontrivial="other" in flags,
+                     sample={"handles": bufs, "history": [list(map(str, x)) for x in hist[:10]], "records": len(hard)})
+            if not ok[0]:
+                continue
+            out = ask({"op": "read", "path": str(path)})
+            if "error" in out:
+                v("fresh-process-cannot-read", err=out["error"])
+                continue
+            seen = {k: bytes.fromhex(x) for k, x in out["seen"].items()}
+            for k in [k for k in seen if k in maybe and k not in hard and seen[k] == maybe[k]]:
+                del seen[k]
+            if seen != hard:
+                v("final-content-differs", missing=sorted(set(hard) - set(seen))[:4], extra=sorted(set(seen) - set(hard))[:4],
+                  altered=sorted(k for k in hard if k in seen and seen[k] != hard[k])[:4])
+                continue
+            try:
+                scan(path.read_bytes())
+            except ScanError as e:
+                v("final-file-not-a-clean-record-sequence", err=str(e))
+            ctx.count("longlived.histories")
+    finally:
+        try:
+            other.stdin.close()
+            other.wait(timeout=10)
+        except Exception:  # noqa
+            other.kill()
 
 
 # ------------------------------------------------------------------------------------------------
